@@ -487,6 +487,45 @@ func containsCall(fd *ast.FuncDecl, pkg, fn string) bool {
 	return found
 }
 
+// namedConstants: `const X = expr`, `var X = expr` (top level or local) and `X := expr` whose name is in
+// `want`, rendered as "X=<expr text>"; composite-literal fields `Field: expr` of the package-level
+// variable `inVar` are rendered as "inVar.Field=<expr text>".
+func namedConstants(f *file, want map[string]bool, inVar string, fields map[string]bool) []string {
+	var out []string
+	ast.Inspect(f.f, func(n ast.Node) bool {
+		switch x := n.(type) {
+		case *ast.ValueSpec:
+			for i, nm := range x.Names {
+				if i < len(x.Values) {
+					if want[nm.Name] {
+						out = append(out, nm.Name+"="+exprStr(x.Values[i]))
+					}
+					if nm.Name == inVar {
+						if cl, ok := x.Values[i].(*ast.CompositeLit); ok {
+							for _, el := range cl.Elts {
+								if kv, ok := el.(*ast.KeyValueExpr); ok && fields[exprStr(kv.Key)] {
+									out = append(out, inVar+"."+exprStr(kv.Key)+"="+exprStr(kv.Value))
+								}
+							}
+						}
+					}
+				}
+			}
+		case *ast.AssignStmt:
+			if x.Tok == token.DEFINE {
+				for i, l := range x.Lhs {
+					if id, ok := l.(*ast.Ident); ok && want[id.Name] && i < len(x.Rhs) {
+						out = append(out, id.Name+"="+exprStr(x.Rhs[i]))
+					}
+				}
+			}
+		}
+		return true
+	})
+	sort.Strings(out)
+	return out
+}
+
 func leanList(xs []string) string {
 	var q []string
 	for _, x := range xs {
@@ -594,6 +633,25 @@ func main() {
 	}
 	emit("fingerprintPackagesSorts", "FingerprintPackages sorts its results (sort.Slice / sort.SliceStable)", b(containsCall(diffDecls["FingerprintPackages"], "sort", "Slice") || containsCall(diffDecls["FingerprintPackages"], "sort", "SliceStable")))
 	emit("matchFunctionsSortsNames", "MatchFunctionsByTopology sorts names (sort.Strings)", b(containsCall(diffDecls["MatchFunctionsByTopology"], "sort", "Strings")))
+	// numeric limits and thresholds that the Lean models carry as constants
+	want := map[string]bool{"MaxCandidates": true, "MaxLCSWindow": true, "MaxSCEVDepth": true, "MaxSCEVNodes": true,
+		"MaxLoopAnalysisDepth": true, "MaxRenamerDepth": true, "MaxFunctionBlocks": true, "DefaultTopologyMatchThreshold": true,
+		"MaxSourceFileSize": true, "MaxHTTPRetries": true, "batchSize": true, "MaxStringLiteralLen": true, "MaxTotalStringBytes": true}
+	var consts []string
+	policyFile := load(root, "pkg/analysis/ir/policy.go")
+	modelsConsts := load(root, "pkg/models/constants.go")
+	store := load(root, "pkg/storage/pebbledb/store.go")
+	topo := load(root, "pkg/analysis/topology/topology.go")
+	for _, f := range []*file{canon, scev, fpr, zip, modelsConsts, store, topo, chk} {
+		for _, c := range namedConstants(f, want, "", nil) {
+			consts = append(consts, f.rel+":"+c)
+		}
+	}
+	for _, c := range namedConstants(policyFile, map[string]bool{}, "DefaultLiteralPolicy", map[string]bool{"SmallIntMin": true, "SmallIntMax": true, "KeepStringLiterals": true}) {
+		consts = append(consts, policyFile.rel+":"+c)
+	}
+	sort.Strings(consts)
+	emit("limits", "numeric limits and thresholds read from the source: file:Name=expression", consts)
 	_ = loopDecls
 	fmt.Println("\nend Sfw.Facts")
 }
